@@ -3,6 +3,8 @@ package c13
 import (
 	"fmt"
 	"io"
+	"runtime"
+	"runtime/debug"
 	"strings"
 	"testing"
 
@@ -14,7 +16,13 @@ import (
 	"verif/harness/internal/refpkg"
 )
 
-func TestMain(m *testing.M) { h.Main(m, "C13") }
+func TestMain(m *testing.M) {
+	// unuse-package rebuilds a whole table per call: with the default settings most of the time goes
+	// into garbage-collector hand-offs between idle Ps (measured 2.1 ms -> 0.2 ms per history)
+	debug.SetGCPercent(400)
+	runtime.GOMAXPROCS(2)
+	h.Main(m, "C13")
+}
 
 // Case is a history over NP fresh user packages (c13a, c13b, c13c). The replay and witness format.
 type Case struct {
@@ -38,35 +46,36 @@ func token(op refpkg.Op, step int) string {
 // forms gives the Lisp text of one step; cur is the current package index before the step (-1 neutral).
 func forms(op refpkg.Op, step int, cur int) (out []string) {
 	a := pkgNames[op.A]
+	cl, q1, q2 := "", "'", ""
 	if !op.Arg && cur != op.A {
-		out = append(out, "(in-package :"+a+")")
+		out = append(out, "("+cl+"in-package :"+a+")")
 	}
 	switch op.K {
 	case "inpkg":
 		if len(out) == 0 {
-			out = append(out, "(in-package :"+a+")")
+			out = append(out, "("+cl+"in-package :"+a+")")
 		}
 	case "use", "unuse":
 		q := pkgNames[op.Q]
 		if op.Arg {
-			out = append(out, fmt.Sprintf("(%s-package :%s :%s)", op.K, q, a))
+			out = append(out, fmt.Sprintf("(%s%s-package :%s :%s)", cl, op.K, q, a))
 		} else {
-			out = append(out, fmt.Sprintf("(%s-package :%s)", op.K, q))
+			out = append(out, fmt.Sprintf("(%s%s-package :%s)", cl, op.K, q))
 		}
 	case "export", "unexport":
 		if op.Arg {
-			out = append(out, fmt.Sprintf("(%s '%s :%s)", op.K, op.N, a))
+			out = append(out, fmt.Sprintf("(%s%s %s%s%s :%s)", cl, op.K, q1, op.N, q2, a))
 		} else {
-			out = append(out, fmt.Sprintf("(%s '%s)", op.K, op.N))
+			out = append(out, fmt.Sprintf("(%s%s %s%s%s)", cl, op.K, q1, op.N, q2))
 		}
 	case "setq":
-		out = append(out, fmt.Sprintf("(setq %s %q)", op.N, token(op, step)))
+		out = append(out, fmt.Sprintf("(%ssetq %s %q)", cl, op.N, token(op, step)))
 	case "defvar":
-		out = append(out, fmt.Sprintf("(defvar %s %q)", op.N, token(op, step)))
+		out = append(out, fmt.Sprintf("(%sdefvar %s %q)", cl, op.N, token(op, step)))
 	case "defun":
-		out = append(out, fmt.Sprintf("(defun %s () %q)", op.N, token(op, step)))
+		out = append(out, fmt.Sprintf("(%sdefun %s () %q)", cl, op.N, token(op, step)))
 	case "makunbound", "fmakunbound":
-		out = append(out, fmt.Sprintf("(%s '%s)", op.K, op.N))
+		out = append(out, fmt.Sprintf("(%s%s %s%s%s)", cl, op.K, q1, op.N, q2))
 	}
 	return
 }
@@ -101,20 +110,32 @@ func (w *world) inPackage(i int) {
 	if i >= 0 {
 		name = pkgNames[i]
 	}
-	if o := evalForm(w.scope, "(in-package :"+name+")"); o.Kind != ev.Value {
+	if o := evalForm(w.scope, "(cl:in-package :"+name+")"); o.Kind != ev.Value {
 		panic("in-package " + name + ": " + o.String())
 	}
 }
 
 var (
 	baseFeatures = -1
+	allNames     = []string{"x", "y", "f", "g"}
+	// condPkg holds the condition classes. slip registers them in common-lisp-user only (the package
+	// that is current while pkg/clos initialises), and signalling any condition in a package that cannot
+	// see the class unbound-variable / undefined-function faults with a nil pointer; that is not the
+	// subject of C13, so the test packages use this class-only package besides CL.
+	condPkg *slip.Package
+	pristine = []*slip.Package{}
 )
 
-func removeAll() {
+func toNeutral() {
 	_ = ev.Try(func() slip.Object {
 		slip.CLPkg.Set("*package*", &slip.UserPkg)
 		return nil
 	})
+}
+
+// discard removes the test packages altogether.
+func discard() {
+	toNeutral()
 	for _, n := range pkgNames {
 		if p := slip.FindPackage(n); p != nil {
 			// the package is discarded: drop its use edges directly instead of one table rebuild per edge
@@ -132,9 +153,6 @@ func removeAll() {
 		}
 	}
 	for _, base := range []*slip.Package{&slip.CLPkg, condPkg} {
-		if base == nil {
-			continue
-		}
 		keep := base.Users[:0:0]
 		for _, u := range base.Users {
 			drop := u.Name == ""
@@ -151,11 +169,46 @@ func removeAll() {
 	}
 }
 
-// condPkg holds the condition classes. slip registers them in common-lisp-user only (the package that
-// is current while pkg/clos initialises), and signalling any condition in a package that cannot see the
-// class unbound-variable / undefined-function faults with a nil pointer; that is not the subject of
-// C13, so the test packages use this class-only package besides CL.
-var condPkg *slip.Package
+// recycle brings the np test packages back to their state right after defpackage, so that the next
+// history need not pay for three new packages (about 0.25 ms each: use-package of CL copies its whole
+// table). Everything a history can leave behind is a use edge between test packages or a table entry
+// under one of the four names; the edges are cut directly, the entries are deleted through the Go API
+// and the result is verified. If anything is left the packages are discarded and made anew.
+func recycle(np int) bool {
+	toNeutral()
+	var ps []*slip.Package
+	for i := 0; i < np; i++ {
+		p := slip.FindPackage(pkgNames[i])
+		if p == nil {
+			return false
+		}
+		ps = append(ps, p)
+	}
+	if slip.FindPackage(pkgNames[np%len(pkgNames)]) != nil && np < len(pkgNames) {
+		return false // a different number of packages was in use
+	}
+	ok := true
+	for _, p := range ps {
+		p.Uses = append(p.Uses[:0:0], pristine...)
+		p.Users = nil
+		p.Exports = nil
+	}
+	for _, p := range ps {
+		for _, n := range allNames {
+			_ = ev.Try(func() slip.Object {
+				for k := 0; k < 2 && p.GetVarVal(n) != nil; k++ {
+					p.Remove(n)
+				}
+				p.Undefine(n)
+				return nil
+			})
+			if p.GetVarVal(n) != nil || p.GetFunc(n) != nil {
+				ok = false
+			}
+		}
+	}
+	return ok
+}
 
 func setup(np int) *world {
 	if condPkg == nil {
@@ -163,9 +216,7 @@ func setup(np int) *world {
 		for _, c := range slip.UserPkg.AllClasses() {
 			condPkg.RegisterClass(c.Name(), c)
 		}
-	}
-	removeAll()
-	if baseFeatures < 0 {
+		pristine = []*slip.Package{&slip.CLPkg, condPkg}
 		if vv := slip.CLPkg.GetVarVal("*features*"); vv != nil {
 			if l, ok := vv.Val.(slip.List); ok {
 				baseFeatures = len(l)
@@ -174,10 +225,19 @@ func setup(np int) *world {
 	}
 	w := &world{scope: slip.NewScope(), np: np, cur: -1}
 	w.scope.Let(slip.Symbol("*error-output*"), &slip.OutputStream{Writer: io.Discard})
+	if recycle(np) {
+		h.Class("packages-recycled", 1)
+		return w
+	}
+	discard()
+	h.Class("packages-created", 1)
 	for i := 0; i < np; i++ {
 		src := "(defpackage :" + pkgNames[i] + " (:use :cl :c13cond))"
 		if o := evalForm(w.scope, src); o.Kind != ev.Value {
 			panic("set-up: " + src + " => " + o.String())
+		}
+		if p := slip.FindPackage(pkgNames[i]); p == nil || len(p.Uses) != 2 || p.Uses[0] != pristine[0] || p.Uses[1] != pristine[1] {
+			panic("set-up: unexpected use list after " + src)
 		}
 	}
 	return w
@@ -225,9 +285,9 @@ func (w *world) probe(m *refpkg.World, names []string) string {
 		for _, n := range names {
 			var pred, read string
 			if refpkg.IsFn(n) {
-				pred, read = "(fboundp '"+n+")", "("+n+")"
+				pred, read = "(cl:fboundp (cl:quote "+n+"))", "("+n+")"
 			} else {
-				pred, read = "(boundp '"+n+")", n
+				pred, read = "(cl:boundp (cl:quote "+n+"))", n
 			}
 			pb, bad := truth(evalForm(w.scope, pred))
 			if bad != "" {
@@ -334,7 +394,7 @@ func runHistory(c Case) (res *h.Result) {
 	names := namesOf(c)
 	m := refpkg.New(c.NP)
 	w := setup(c.NP)
-	defer removeAll()
+	defer toNeutral()
 
 	// bookkeeping for the non-trivial rule: some (package, name) resolved to another package's
 	// definition and a later retracting step (unuse, unexport, makunbound, fmakunbound) changed that.
